@@ -1,4 +1,4 @@
-HOOK_COMMITS = ["bc7826eeb31079b932557c6566a10da9b9acc9ce"]
+HOOK_COMMITS = ["bc7826eeb31079b932557c6566a10da9b9acc9ce", "657055896c7fdd0911821ba159a78378f19a9d6a"]
 _PENDING = "check not built yet in this round (planned, see DESIGN.md section 9); not a statement that the technique cannot apply"
 NOT_APPLICABLE = {}
 TEXT = {
@@ -25,10 +25,16 @@ TEXT = {
           "representation combinations, status bits, contains/isEmpty/isFull, constructor). Theorems for all M and all sets satisfying "
           "the representation invariant: results keep the invariant, denote exactly the union/intersection, status S1/S2/EMPTY is "
           "correct, emptiness/fullness/membership agree with the denoted subset. Tied to the C code exhaustively for p<=5 (p<=7 "
-          "thorough) over all subset pairs x 4 representations and by random sets for larger/multi-limb primes. Z_p root finding and "
-          "constraint feasible sets are not yet in this check.",
+          "thorough) over all subset pairs x 4 representations and by random sets for larger/multi-limb primes. Root finding and "
+          "constraints (h_zp): every result of lp_upolynomial_roots_find_Zp (brute force, randomised finder above the threshold incl. "
+          "multi-limb primes, and the randomised finder forced below it by the LIBPOLY_VERIF hook) must consist of distinct field "
+          "elements in the symmetric range that are roots, as many as the field has (exhaustive evaluation for p <= 20000, "
+          "deg gcd(f, x^p - x) by the model's modular powering otherwise); constraint feasible sets over Z_p must satisfy the set "
+          "representation invariant and be exactly the solution set (all residues for small p; probes + root count for large p), "
+          "lp_feasibility_set_int_contains must agree on every probe; constraint_evaluate_Zp and reduce_degree_Zp (same function on "
+          "Z_p^2, degrees < p) are compared exactly.",
   "design_ref": "5.14",
-  "note": "size/isPoint/eq and the in-range claim of value picking are tied by (exhaustive) correspondence only, not yet proved; qsort modelled as sorted insertion",
+  "note": "size/isPoint/eq and the in-range claim of value picking are tied by (exhaustive) correspondence only, not yet proved; qsort modelled as sorted insertion; the root-finding part is validator style (no theorem about gcd(f, x^p - x)); found and fixed: unsorted roots in constraint sets for large primes, a leak",
   "technique": "Lean 4 proof over mirror model + exhaustive/differential correspondence harness",
  },
  "C13": {
